@@ -1,5 +1,5 @@
 (* C09 — each logical file has the mandated order: header, origin, sets, then data. Statements only. *)
-From DV Require Import Model.ApiDispatch Proofs.BuilderP.
+From DV Require Import Model.ApiDispatch Proofs.BuilderP Proofs.RegP.
 
 (* the records of a logical file are: the FILE-HEADER record (type 0, one object, sequence number right-justified in 10,
    id left-justified in 65 — see enc_fileheader), then explicitly formatted records only, then indirectly formatted
@@ -20,6 +20,15 @@ Proof.
   intros st sid st' r He H. unfold enc_sset in H. rewrite He in H. cbn in H. inversion H. reflexivity.
 Qed.
 
+(* each (type, name) at most once: in every reachable state, the sets a logical file writes — `lf_sids f`, the list
+   lf_records iterates over (lf_sids_spec): its ORIGIN sets, then every other class in registry order — are existing sets
+   with pairwise distinct (set type, set name) *)
+Theorem C09_sets_once : forall ops ps l f,
+  let st := bstate_of (run_ops ps b_init ops) in
+  lf_at st l = Some f ->
+  NoDup (map (fun sid => (s_ty (set_at st sid), s_name (set_at st sid), (sid <? length (b_sets st))%nat)) (lf_sids f)).
+Proof. exact reachable_lf_sets_distinct. Qed.
+
 (* the header fields are justified as the standard prescribes *)
 Example C09_header :
   exists b, enc_fileheader {| on_origin := Some 1; on_copy := 0; on_name := [48] |} 7 [72; 73] = OK b
@@ -28,3 +37,4 @@ Proof. eexists. split; vm_compute; reflexivity. Qed.
 
 Print Assumptions C09_order.
 Print Assumptions C09_no_empty_sets.
+Print Assumptions C09_sets_once.
